@@ -101,9 +101,17 @@ def build(tier, seed):
             if not same(ed.evaluate(addr), Evaluator(m).evaluate(addr)):
                 return False
         return True
-    obs.append(Ob('c11.adapter[workbook -> model]', h, pre=lambda a, b, t, cached, cached2, k, s, my: (not isinstance(t, str) or len(t) <= 2) and (not isinstance(cached2, str) or len(cached2) <= 2),
-                  witness=[(1, 2, 'x', 3, 6, 5, True, False), (4, -4, True, 0, 'ab', 0, False, True), (0, 0, 7, 1, False, 1, False, False)], timeout=600, cost=200, family='c11.adapter',
-                  bounds='3 sheets (Data, "My Sheet", Skip), 11 stored cells: constants a, b, k (all ints), t over int / text(<=2) / bool, formulas with cached results (int; int/text/bool), defined names for a cell '
-                         'and a range; every subset of {Skip, My Sheet} ignored (forked)',
-                  show=lambda *a: f'a={a[0]} b={a[1]} t={a[2]!r} cached={a[3]} cached2={a[4]!r} k={a[5]} ignore Skip={a[6]} ignore My Sheet={a[7]}'))
+    for ig_s in (False, True):
+        for ig_m in (False, True):
+            def mk(ig_s, ig_m):
+                def hh(a: int, b: int, t: CV, cached: int, cached2: CV, k: int) -> bool:
+                    return h(a, b, t, cached, cached2, k, ig_s, ig_m)
+                return hh
+            label = 'ignore ' + ('+'.join([n for n, f in (('Skip', ig_s), ('My Sheet', ig_m)) if f]) or 'nothing')
+            obs.append(Ob(f'c11.adapter[workbook -> model, {label}]', mk(ig_s, ig_m),
+                          pre=lambda a, b, t, cached, cached2, k: (not isinstance(t, str) or len(t) <= 2) and (not isinstance(cached2, str) or len(cached2) <= 2),
+                          witness=[(1, 2, 'x', 3, 6, 5), (4, -4, True, 0, 'ab', 0), (0, 0, 7, 1, False, 1)], timeout=600, cost=60, family='c11.adapter',
+                          bounds='3 sheets (Data, "My Sheet", Skip), 11 stored cells: constants a, b, k (all ints), t over int / text(<=2) / bool, formulas with cached results (int; int/text/bool), '
+                                 f'defined names for a cell and a range; {label}',
+                          show=lambda *a: f'a={a[0]} b={a[1]} t={a[2]!r} cached={a[3]} cached2={a[4]!r} k={a[5]}'))
     return obs
